@@ -390,6 +390,33 @@ pub fn c09(tier: &str, seed: u64) -> Vec<Case> {
             Err(_) => { c = c.fail("opt-rejected", "a valid EDNS message is rejected".into()); }
         }
         v.push(c);
+        // a received EDNS message answered with another response code (what a server does with a parsed query,
+        // a proxy with a reply): the 12 bits are split again from the NEW code, nothing of the old one is left
+        if !rfc_layout {
+            if let Ok(mut q) = Packet::parse(&b) {
+                if q.opt().is_some() {
+                    let new_rc = *r.pick(&Gen::RCODES);
+                    *q.rcode_mut() = new_rc;
+                    if i % 2 == 0 { *q.opcode_mut() = *r.pick(&Gen::OPCODES); }
+                    let qtxt = text::packet(&q);
+                    for compressed in [false, true] {
+                        let (out2, bytes2) = crate::props::pk::build_out_pub(&q, compressed);
+                        let mut c2 = Case::new(format!("{} {}", if compressed { "build.comp" } else { "build" }, qtxt), out2).tag("rcode-replaced");
+                        if let Some(b2) = bytes2 {
+                            let nib = b2[3] & 0x0F;
+                            if nib as u16 != (new_rc as u16) & 0xF { c2 = c2.fail("opt-header-rcode", format!("after replacing the response code {:?} of a parsed message by {:?} the header carries the low bits {}", rc, new_rc, nib)); }
+                            let opb = (b2[2] >> 3) & 0x0F;
+                            if opb as u16 != q.opcode() as u16 { c2 = c2.fail("opt-header-opcode", format!("opcode field {} after setting {:?} on a parsed message", opb, q.opcode())); }
+                            match Packet::parse(&b2) {
+                                Ok(q2) => { if q2.rcode() as u16 != new_rc as u16 && !(new_rc as u16 == 15 && q2.rcode() == RCODE::Reserved) { c2 = c2.fail("opt-rcode-replaced", format!("set {:?}, re-parsed {:?}", new_rc, q2.rcode())); } }
+                                Err(_) => { c2 = c2.fail("opt-roundtrip", "the re-written message no longer parses".into()); }
+                            }
+                        }
+                        v.push(c2);
+                    }
+                }
+            }
+        }
     }
     v
 }
